@@ -16,7 +16,7 @@ Not decided: liveness ("a requested refresh is eventually answered"), end-to-end
 """
 from ..inline import inline_view
 from ..mir import AnchorLost
-from ..util import truth_edges, bool_edges, uses_of_local, guard_across_yield, df_of, enum_variant_of_operand, operand_path, path_last, one_call, yields, switch_on, switch_edges, in_set, fn_short
+from ..util import dj_of, truth_edges, bool_edges, uses_of_local, guard_across_yield, df_of, enum_variant_of_operand, operand_path, path_last, one_call, yields, switch_on, switch_edges, in_set, fn_short
 
 MOD = "scylla::cluster::metadata::merge_channel::"
 
@@ -360,9 +360,54 @@ def r8(ctx, facts):
         raise AnchorLost("no store into MetadataUpdate.metadata_changes found")
 
 
+def r9(ctx, facts):
+    r = ctx.rule("R9", "whatever a merge_* function is given ends up in the pending update on every path (nothing fetched is silently dropped)", floor=4)
+    n = 0
+    for b in facts.find(r"^scylla::cluster::metadata::update::MetadataUpdate::merge_[a-z_]+$"):
+        if b.argc < 2:
+            continue
+        dj = dj_of(b, facts)
+        for p in range(2, b.argc + 1):
+            n += 1
+            use_bbs, work, seen = set(), [p], set()
+            while work:
+                l = work.pop()
+                if l in seen:
+                    continue
+                seen.add(l)
+                for ub, where, _op in uses_of_local(b, l):
+                    if where[0] == "stmt":
+                        st = where[1]
+                        if st[1][1]:            # stored into a place behind a projection (a field of the pending update)
+                            use_bbs.add(ub)
+                        elif st[2][0] == "agg":
+                            use_bbs.add(ub)     # wrapped into a value that is built here (Some(..), Partial(..), Full{..})
+                        else:
+                            work.append(st[1][0])
+                    elif where[0] == "arg":
+                        use_bbs.add(ub)
+            pdisc = ("disc", dj.disc_root((p, ())))
+            is_opt = b.local_ty(p).startswith("core::option::Option<")
+
+            def nothing_to_merge(st, _pdisc=pdisc, _opt=is_opt, _key=(fn_short(b.path), b.local_name(p))):
+                # an absent optional payload (`None`) has nothing to store
+                if _opt and in_set(st.get(_pdisc), {0}):
+                    return True
+                # reviewed: a client-routes snapshot arriving while the pending full metadata has no client routes configured is logged and dropped
+                if _key == ("MetadataUpdate::merge_client_routes_update", "new_client_routes"):
+                    return any(k[0] == "disc" and in_set(v, {0}) and "client_routes" in dj.canon.fmt(k[1]) for k, v in st.items())
+                return False
+            escaped = dj.feasible_reach(0, removed_nodes=use_bbs, drop_state=nothing_to_merge) & set(b.exits)
+            r.instance("%s:%s-is-merged-on-every-path" % (fn_short(b.path), b.local_name(p) or "arg%d" % p), bool(use_bbs) and not escaped,
+                       "%s can return without storing or handing on its `%s` argument: the value the producer merged in never reaches the consumer, although modify() reports success"
+                       % (fn_short(b.path), b.local_name(p) or "arg%d" % p), b.span)
+    if n < 4:
+        raise AnchorLost("MetadataUpdate::merge_* functions not found (%d payload arguments)" % n)
+
+
 def check(ctx):
     facts = inline_view(ctx.facts("default"))
-    for fn in (r1_r4, r2, r3, r5, r6, r7, r8):
+    for fn in (r1_r4, r2, r3, r5, r6, r7, r8, r9):
         try:
             fn(ctx, facts)
         except AnchorLost as ex:
